@@ -1,0 +1,26 @@
+//go:build verif
+
+package sweeper
+
+import "context"
+
+// VerifStats is a copy of the statistics of the last completed sweep.
+type VerifStats struct {
+	NTxn, NEntries, NDeleted, NCleaned int
+}
+
+// VerifSweepOnce runs exactly one full sweep pass.
+func (s *Sweeper) VerifSweepOnce(ctx context.Context) error {
+	return s.sweep(ctx)
+}
+
+// VerifLastStats returns the statistics of the last completed sweep.
+func (s *Sweeper) VerifLastStats() VerifStats {
+	st := s.lastStats
+	return VerifStats{
+		NTxn:     int(st.nTxn),
+		NEntries: int(st.nEntries),
+		NDeleted: int(st.nDeleted),
+		NCleaned: int(st.nCleaned),
+	}
+}
